@@ -36,9 +36,9 @@ TEXT = {
     "C03": "registry and callback life-cycle invariants for every history (one registry per id, callbacks at most once / in order / at the right moment); exactly-once and completeness with lost=false, discharged for histories without gather_and_close; a finished task stays finished after every continuation",
     "C04": "request accounting invariant for every history: created+skipped+remaining = num, the tasks of a request are exactly the ones it created (never more than num); loop accounting of the apply/start spawner for every n and pool state (done means all)",
     "C05": "two-sided books of the per-call semaphore for every history (equality while the consumer lives, no lost wake-up) => never more than num_concurrent tasks of a call, and work conservation: a live consumer waiting on its own semaphore with no wake-up on its way means all num_concurrent slots are held by tasks of the call; request accounting for every history (in order, lazy, one element in hand at most); the premise 'loop idle => no wake-up on its way' stays with the monitor",
-    "C06": "decision logic stated outright: all-or-nothing with full state equality, classification, exact frame and delivery",
+    "C06": "decision logic stated outright: all-or-nothing with full state equality, classification, exact frame and delivery; a worker that catches its CancelledError and goes on is a running task like any other (next cancel accepted and delivered)",
     "C07": "what cancel_group/cancel_all do (frame, forgotten name), what a spawner does at its next step for each placement of the cancellation, and the invariant over all histories that a spawner cancelled while suspended or not yet begun has created no task and pulled no element since and is over or still doomed (nothing un-cancels it); cancel_group / cancel_all record that cancellation for every live spawner concerned, and after every continuation of the history the call's counters and task count are unchanged (step relation Mono: every step only moves forward)",
-    "C08": "step-level theorems of the stages of gather_and_close (collecting gather waits for the last child, closing step, until_closed); closed stays closed after every continuation of the history (so every later request is rejected); whole-history waiting is a monitor",
+    "C08": "step-level theorems of the stages of gather_and_close (collecting gather waits for the last child, closing step, until_closed); closed stays closed after every continuation of the history (so every later request is rejected); for every history the count of every gather is exact (world-level invariant over the ready queue), so a gather completes only when all its child tasks have finished",
     "C09": "complete decision tables of the spawning calls, full state equality on rejection, lock/unlock algebra",
     "C10": "get_group_ids spec, freshness of generated names (pigeonhole; assumes decimal rendering injective), membership of new tasks",
     "C11": "ids are list indices: new id = number of tasks created, never reused (after every continuation of a history a pool has at least as many tasks), pools independent, class-level indices distinct for every history",
